@@ -13,6 +13,12 @@ CLAIMED = {
          "DESIGN.md §5 C02"),
 }
 
+CLAIMED["C08"] = ("exploration",
+  "deterministic simulation: same tape re-executed in-process (M1), in fresh processes with other map hash seeds (M2) and as a later world of a long-lived process vs first world of a fresh one (M4); byte comparison of full output logs",
+  "Seeded search over simulated deployments that are rich in map-keyed constructs (several translation languages, headers, currencies, NLU ties). Each scenario is executed three times in one process and, sampled, again in a fresh OS process; every output the property names (events, segments, session JSON, Inspect, marshal, ExtractTemplates, ChangeLanguage, MigrateToLatest, Clone with fixed mapping, query String) is compared byte for byte. Evidence, not proof: repetition samples an order the Go runtime picks.",
+  "Trusts that the simulator owns every other source of nondeterminism (clock, UUID, random, HTTP, SMTP seams) - which this check itself tests. Map iteration order is sampled by repetition (probability >= 1/2 per visit of an order-dependent site with >= 2 keys), not yet controlled.",
+  "DESIGN.md §5 C08")
+
 NOT_BUILT = {
 }
 
